@@ -266,6 +266,13 @@ func ResultGen(d *m.Design, meth *m.Method) *rapid.Generator[value.V] {
 				loc.SingleElemArray = kf.Open("C03-response-header-array-not-split")
 			}
 			present := f.Required || f.Attr.Default != nil
+			if !f.Required && f.Attr.Default != nil && w == "body" && !(ReachesResultType(d, meth.Result) && kf.Open("C03-result-type-unset-default-not-applied")) {
+				// C03: "attributes with a declared default that the service left unset
+				// are seen by the client with that default" - in a response body the
+				// service sometimes leaves them unset (in Go: the zero value)
+				present = rapid.IntRange(0, 9).Draw(t, "rdefpresent:"+f.Name) < 6
+				loc.MustSetDefaults = false
+			}
 			if !present && MinLenCollection(d, f.Attr) && kf.Open("C04-absent-optional-collection-minlength") {
 				present = true
 			}
@@ -327,4 +334,40 @@ func ResultGen(d *m.Design, meth *m.Method) *rapid.Generator[value.V] {
 		}
 		return out
 	})
+}
+
+// ReachesResultType reports whether the attribute's type is or contains
+// (through user types, arrays, maps and objects) a result type.
+func ReachesResultType(d *m.Design, a *m.Attr) bool {
+	seen := map[string]bool{}
+	var walk func(a *m.Attr) bool
+	walk = func(a *m.Attr) bool {
+		if a == nil || a.Type == nil {
+			return false
+		}
+		switch a.Type.Kind {
+		case m.User:
+			ut := d.TypeByName(a.Type.User)
+			if ut == nil || seen[ut.Name] {
+				return false
+			}
+			if ut.Result {
+				return true
+			}
+			seen[ut.Name] = true
+			return walk(ut.Attr)
+		case m.Array:
+			return walk(a.Type.Elem)
+		case m.Map:
+			return walk(a.Type.Val)
+		case m.Object, m.Union:
+			for _, f := range a.Type.Fields {
+				if walk(f.Attr) {
+					return true
+				}
+			}
+		}
+		return false
+	}
+	return walk(a)
 }
